@@ -61,6 +61,12 @@ var plans = map[string]PropPlan{
 		QuickSecs: 90, ThoroughSecs: 1200,
 		Assumptions: schedAssume,
 	},
+	"C11": {
+		Quick:     []Plan{{Scenario: "poll.live", PB: 2, DB: 0}, {Scenario: "poll.dispatch", PB: 0, DB: 3, NoIter: true}},
+		Thorough:  []Plan{{Scenario: "poll.live", PB: 3, DB: 0}, {Scenario: "poll.dispatch", PB: 1, DB: 4, NoIter: true}},
+		QuickSecs: 90, ThoroughSecs: 900,
+		Assumptions: append([]string{"Linux epoll only (poll_default_bsd.go does not build here)", "poll.dispatch calls the real event handler with synthetic (flag set x real descriptor state) batches chosen as explored environment options; flag sets the kernel cannot produce for a state are judged by the safety clauses only", "operators are recording stubs with the connection's callback shapes"}, schedAssume...),
+	},
 	"C12": {
 		Quick:     []Plan{{Scenario: "closed.api", PB: 1, DB: 3, NoIter: true}},
 		Thorough:  []Plan{{Scenario: "closed.api", PB: 2, DB: 3, NoIter: true}},
